@@ -43,6 +43,7 @@ THEOREMS = [
     "Nix.C03.membership_by_entity_wrong_kind",
     "Nix.C03.delete_by_entity",
     "Nix.C03.delete_key_forms_agree",
+    "Nix.C03.delete_from_owning_container",
     "Nix.C03.demoL_reachable",
     "Nix.C03.link_append_last",
     "Nix.C03.link_unlink_keeps_rest",
@@ -126,7 +127,9 @@ MANIFEST = {
                   "link list, positions / extents / metadata / link / feature data, a kept handle); membership by entity "
                   "is True exactly when the node is an entry (membership_by_entity / _link / _by_handle), deletion by "
                   "entity removes exactly that entry and every key form deletes what the entity key deletes "
-                  "(delete_by_entity, delete_key_forms_agree). A legal name that is free in the function's own container "
+                  "(delete_by_entity, delete_key_forms_agree); deletion from sections / sources containers (subtree deletion) "
+                  "succeeds for every addressing key, removes the entry and keeps the order of what remains "
+                  "(delete_from_owning_container). A legal name that is free in the function's own container "
                   "is accepted: the success of the call is proved, not assumed (legal_name_accepted_in_full / "
                   "_multi_tag_full / _frame_full / _section_full / _property_full).",
     "technique": "Lean 4 proof (invariant over unbounded histories, per-function lemmas, decide over the regenerated "
@@ -140,8 +143,9 @@ MANIFEST = {
                   "(ids first), so legal_name_accepted_section_full excludes, for the top level, a name that is the id "
                   "of a top-level section; create_multi_tag with raw positions / extents "
                   "(auto-created arrays, createMultiTagAuto) is in the model and the correspondence, not in the proved "
-                  "histories; order_after_delete covers plain containers and link lists, not the subtree deletion of "
-                  "sections / sources. Open finding: an entity *named* with the id of a sibling is shadowed by that "
+                  "histories; for the subtree deletion of sections / sources delete_from_owning_container gives the "
+                  "remaining list in terms of the deleted subtree (entry gone, order kept), but that no sibling lies in "
+                  "that subtree is not proved (needs a single-owner invariant outside the shared WF). Open finding: an entity *named* with the id of a sibling is shadowed by that "
                   "sibling in by-name lookup (ids are tried first) — the one hypothesis left in views_agree_reachable.",
 }
 
